@@ -9,6 +9,7 @@ From PintV Require Import Common.Bytes Common.Sorting Gen.Tables Model.Severity 
 From PintV Require Import Proofs.C11_order Proofs.C11_perm Proofs.C11_monitor.
 From PintV Require Proofs.C11_stable_sort.
 From PintV Require Import Model.ScanLTS Model.JobEnum Proofs.C11_lts Proofs.C11_jobs.
+From PintV Require Gen.C11.
 Import ListNotations.
 Local Open Scope Z_scope.
 
@@ -56,6 +57,17 @@ Theorem C11_protocol_terminates : forall (J A : Type) (run : J -> list A) cap n 
   done J A s = true /\ Permutation (summary J A s) (sequential J A run js) /\ (k <= measure J A run (init J A n js))%nat.
 Proof. intros J A run cap n js k s N C R M. exact (maximal_runs_deliver J A run cap n js k s N C R M). Qed.
 Print Assumptions C11_protocol_terminates.
+
+(** The transition system is the protocol of the CURRENT source: the concurrency skeleton of checkRules and
+    scanWorker extracted from the Go AST this run (Gen/C11.v, translator/ext_C11.go) is the one Model/ScanLTS.v was
+    written from (a dropped close, a non-blocking send, an extra receive, a second consumer ... change it). *)
+Theorem C11_protocol_matches_source :
+  Gen.C11.check_rules_skeleton = expected_check_rules_skeleton /\
+  Gen.C11.scan_worker_skeleton = expected_scan_worker_skeleton /\
+  Gen.C11.scan_worker_channels = expected_scan_worker_channels /\
+  Gen.C11.channel_capacities_positive = true.
+Proof. repeat split; reflexivity. Qed.
+Print Assumptions C11_protocol_matches_source.
 
 (** Results do not depend on worker count or scheduling, stated over runs of the protocol: two complete runs of
     checkRules over the same jobs (entries x checks, a job's reports built by scanWorker's Report literal) with ANY
